@@ -33,7 +33,7 @@ var c14Docs = []string{"authn", "logout", "tiny", "non-ascii", "prolog-and-trail
 var c14URLs = []string{"https://idp.example.com/sso", "https://idp.example.com/sso?x=1", "https://idp.example.com/sso?x=1&y=a%20b&x=2", "https://idp.example.com/a%20path/sso", "https://idp.example.com/sso?empty=&flag"}
 var c14Funcs = []string{"BuildAuthURL", "BuildAuthURLFromDocument", "BuildAuthURLRedirect", "BuildLogoutURLRedirect", "AuthRedirect"}
 var c14Algs = []string{"", dsig.RSASHA1SignatureMethod, dsig.RSASHA512SignatureMethod, dsig.ECDSASHA256SignatureMethod}
-var c14Keys = []string{"field", "setter", "separate-signing-field", "separate-signing-setter", "ecdsa-signing-setter"}
+var c14Keys = []string{"field", "setter", "separate-signing-field", "separate-signing-setter", "ecdsa-signing-setter", "signing-field+encryption-setter"}
 
 type c14Case struct {
 	Relay int  `json:"relay"`
@@ -80,6 +80,11 @@ func c14SP(c c14Case) (*saml2.SAMLServiceProvider, string) {
 	case "separate-signing-setter":
 		sp.SetSPSigningKeyStore(world.SetterKeyStore("K1"))
 		signer = "K1"
+	case "signing-field+encryption-setter":
+		sp.SPKeyStore = nil
+		sp.SetSPKeyStore(world.SetterKeyStore("KX"))
+		sp.SPSigningKeyStore = world.TLSKeyStore("KG")
+		signer = "KG"
 	}
 	if c14Algs[c.Alg] == dsig.ECDSASHA256SignatureMethod || c14Keys[c.Keys] == "ecdsa-signing-setter" {
 		sp.SetSPSigningKeyStore(world.SetterKeyStore("KE"))
@@ -366,7 +371,7 @@ func c14Replay(raw json.RawMessage) ([]string, string) {
 }
 
 func c14Run(r *mc.Run) {
-	r.Rule = "full product relay state(22) x document(5, incl. one with a declaration, comments and a processing instruction around the root) x IdP URL(5: no query, one parameter, repeated and escaped parameters, escaped path, empty-valued and valueless parameters) x function(5) x SignAuthnRequests(2) x algorithm(4: unset, rsa-sha1, rsa-sha512, ecdsa-sha256) x key configuration(5, incl. a P-256 signing key with every algorithm setting), plus relay states assembled from every sequence of 2 (quick) / 2-3 (thorough) of 23 query-syntax fragments through the two signing redirect builders; oracle = hand-split raw query (no net/url), strict percent-decoding, base64 + raw inflate, PKCS#1 v1.5 / ECDSA verification with the reported certificate over SAMLRequest=..[&RelayState=..]&SigAlg=.. assembled from the raw values as they appear; each case is followed on the same instance by a second URL (other relay state, document and IdP endpoint) and, for RSA signers, by a third one after the signing key was replaced through SetSPSigningKeyStore. non-trivial = a URL was produced and decoded; distinct = distinct case"
+	r.Rule = "full product relay state(22) x document(5, incl. one with a declaration, comments and a processing instruction around the root) x IdP URL(5: no query, one parameter, repeated and escaped parameters, escaped path, empty-valued and valueless parameters) x function(5) x SignAuthnRequests(2) x algorithm(4: unset, rsa-sha1, rsa-sha512, ecdsa-sha256) x key configuration(6, incl. a signing key in the field next to an encryption key given through the setter, a P-256 signing key with every algorithm setting), plus relay states assembled from every sequence of 2 (quick) / 2-3 (thorough) of 23 query-syntax fragments through the two signing redirect builders; oracle = hand-split raw query (no net/url), strict percent-decoding, base64 + raw inflate, PKCS#1 v1.5 / ECDSA verification with the reported certificate over SAMLRequest=..[&RelayState=..]&SigAlg=.. assembled from the raw values as they appear; each case is followed on the same instance by a second URL (other relay state, document and IdP endpoint) and, for RSA signers, by a third one after the signing key was replaced through SetSPSigningKeyStore. non-trivial = a URL was produced and decoded; distinct = distinct case"
 	var cases []c14Case
 	mc.Enumerate(-1, r.Expired, func(ch *mc.Chooser) {
 		c := c14Case{}
